@@ -26,4 +26,4 @@ if [ -n "${VARIANT_FAILED:-}" ]; then
   echo "  key=$ID/variant-build: $VARIANT_FAILED"
   exit 1
 fi
-exec ./build/vcheck "$ID" "$TIER"
+exec "./build/${BIN:-vcheck}" "$ID" "$TIER"
